@@ -46,24 +46,24 @@ Proof. exact C16.Refuted.semi_asis_refuted. Qed.
 Print Assumptions semi_asis_refuted.
 
 (* ---- tie (T): the local predicates of /repo, translated on every run into Gen/Gen_Preds.v by translator/predicates.py ----
-   pst g u v = the six marks between u and v.  Statements and the complete case analyses: Tie/Preds_C16.v. *)
+   pst g u v = the six marks between u and v; pag_pairs g = every pair of g is in a state a PAG can hold (the invariant of
+   C03).  Statements and the complete case analyses: Tie/Preds_C16.v, Tie/PredsProofs.v. *)
 From PG Require Import C03.PState Gen.Gen_Preds Tie.PredsProofs Tie.Preds_C16.
 
-(* on the graphs of the quantifier (no lone circle mark) every translated predicate -- the per-pair test of
+(* on the graphs of the quantifier (PAG pairs, no lone circle mark) every translated predicate -- the per-pair test of
    is_semi_directed_path, _possibly_directed with either flag, the BFS step of possible_descendants / possible_ancestors,
    the two arrowhead filters of _all_semi_directed_paths_graph -- IS the model's step predicate semi_ok, for every pair *)
 Theorem repo_pred_semi : repo_pred_semi_stmt.
 Proof. exact Tie.Preds_C16.repo_pred_semi. Qed.
 Print Assumptions repo_pred_semi.
 
-(* on every graph: they differ from semi_ok exactly on a pair whose only mark is one circle (u o- v), where the code
-   takes the step and the model does not; is_semi_directed_path's test agrees everywhere *)
-Theorem repo_pred_semi_exact : repo_pred_semi_exact_stmt.
-Proof. exact Tie.Preds_C16.repo_pred_semi_exact. Qed.
-Print Assumptions repo_pred_semi_exact.
+(* hence the step functions of the model's poss_desc / poss_anc closures are filters by the generated BFS steps *)
+Theorem repo_pred_poss_step_filters : repo_pred_poss_step_filters_stmt.
+Proof. exact Tie.Preds_C16.repo_pred_poss_step_filters. Qed.
+Print Assumptions repo_pred_poss_step_filters.
 
 (* the translator's own evaluation of each predicate (the table compared cell by cell with the real functions on every
-   run) equals the printed Gallina function on the complete enumeration *)
+   run) equals the printed Gallina function on all 64 pair states *)
 Theorem repo_pred_cells_C16 :
   gen_possibly_directed_enum = gen_possibly_directed_cells /\
   gen_poss_desc_step_enum = gen_poss_desc_step_cells /\
